@@ -52,6 +52,9 @@ def run(ch, tier):
     cfg = swarm(cs, Cfg(sends=True, bump=True, internal=True, delays=False, final=(mode == 'rename')), tier)
     if mode == 'copy':
         cfg.final = False
+    if cs.flag(1, 3):       # two history states under one parent: which one comes first among the children depends on the names
+        cfg.history = cfg.force_history = True
+        cfg.max_states = max(cfg.max_states, 8)
     sp = gen_spec(ch.s('chart'), cfg)
     rs = ch.s('rename')
     # "twin" transitions: equal in every field except the priority, with one of intermediate priority in between
